@@ -1,6 +1,33 @@
 # job registry: per property, per tier the list of (harness, parameterisation) = CBMC obligation sets
 from vplib.pipeline import Job
 
+# built-in numeric base types, transcribed from the documentation comments in DataTypeList::DataTypeList (datatype.cpp):
+# (id, bits, flags, replacement, min, max, divisor); flags: BCD=2 REV=4 SIG=8 REQ=0x40 HCD=0x80
+NUMTYPES = [
+  ('UCH', 8, 0, 0xff, 0, 0xfe, 1), ('U1L', 8, 0x40, 0, 0, 0xff, 1), ('SCH', 8, 8, 0x80, 0x81, 0x7f, 1), ('S1L', 8, 0x48, 0, 0x80, 0x7f, 1),
+  ('D1C', 8, 0, 0xff, 0, 0xc8, 2), ('D2B', 16, 8, 0x8000, 0x8001, 0x7fff, 256), ('D2C', 16, 8, 0x8000, 0x8001, 0x7fff, 16),
+  ('FLT', 16, 8, 0x8000, 0x8001, 0x7fff, 1000), ('UIN', 16, 0, 0xffff, 0, 0xfffe, 1), ('U2L', 16, 0x40, 0, 0, 0xffff, 1),
+  ('SIN', 16, 8, 0x8000, 0x8001, 0x7fff, 1), ('S2L', 16, 0x48, 0, 0x8000, 0x7fff, 1),
+  ('U3N', 24, 0, 0xffffff, 0, 0xfffffe, 1), ('S3N', 24, 8, 0x800000, 0x800001, 0x7fffff, 1), ('S3L', 24, 0x48, 0, 0x800000, 0x7fffff, 1),
+  ('ULG', 32, 0, 0xffffffff, 0, 0xfffffffe, 1), ('U4L', 32, 0x40, 0, 0, 0xffffffff, 1),
+  ('SLG', 32, 8, 0x80000000, 0x80000001, 0x7fffffff, 1), ('S4L', 32, 0x48, 0, 0x80000000, 0x7fffffff, 1),
+  ('UIN10', 16, 0, 0xffff, 0, 0xfffe, 10), ('SIN-10', 16, 8, 0x8000, 0x8001, 0x7fff, -10), ('ULG100', 32, 0, 0xffffffff, 0, 0xfffffffe, 100),
+]
+QUICK_NUM = ['UCH', 'SCH', 'D1C', 'UIN', 'SIN', 'FLT', 'S3N', 'ULG', 'SLG', 'U4L', 'SIN-10']
+
+def numtype_jobs(prop, src, T, extra_defs, prefix, names=None, **kw):
+    out = []
+    for (tid, bits, fl, repl, mn, mx, div) in NUMTYPES:
+        if not T and tid not in (names or QUICK_NUM):
+            continue
+        d = {'T_BITS': bits, 'T_FLAGS': fl, 'T_REPL': '%du' % repl, 'T_MIN': '%du' % mn, 'T_MAX': '%du' % mx, 'T_DIV': '(%d)' % div}
+        d.update(extra_defs)
+        out.append(Job(prop, prefix + tid.replace('-', 'm'), src, defs=d, unwind=12, shape='K',
+                       link=['lib/ebus/datatype.cpp', 'lib/ebus/symbol.cpp', 'lib/ebus/result.cpp', 'lib/ebus/contrib/contrib.cpp', 'lib/ebus/contrib/tem.cpp'],
+                       models=['string', 'libc', 'sstream', 'posix', 'containers', 'libm'], skip_ctors=['datatype', 'contrib', 'tem'],
+                       bounds='type %s (%d bits, divisor %d): every libc parse outcome (sign, 64-bit magnitude, overflow, trailing text, any double incl. NaN/inf), stale errno' % (tid, bits, div), **kw))
+    return out
+
 def jobs(prop, tier):
     T = tier == 'thorough'
     J = []
@@ -27,6 +54,27 @@ def jobs(prop, tier):
         k = 16 if T else 10
         J.append(Job('C01', 'run_plain', 'C01_passive.cpp', defs={'K': k}, unwind=3, shape='R', timeout=2400 if T else 300,
                      unwindset={}, bounds='%d handler steps from the real initial state, every read result symbolic' % k, **BUS))
+    if prop == 'C15':
+        BUS = dict(link=['lib/ebus/symbol.cpp', 'lib/ebus/device_trans.cpp', 'lib/ebus/result.cpp', 'lib/utils/thread.cpp'],
+                   models=['string', 'libc', 'sstream', 'posix', 'containers'], solver='cadical')
+        nn = 10 if T else 6
+        J.append(Job('C15', 'lookup', 'C15_lookup.cpp', defs={'NNMAX': nn, 'NREG': 2, 'ENV_NOLOG': None}, unwind=nn + 7, shape='K',
+                     timeout=1800 if T else 280,
+                     bounds='2 registrations (source any/master, id length 0..4, all byte values), telegram NN 0..%d' % nn, **BUS))
+    if prop == 'C18':
+        M = ['string', 'libc', 'sstream', 'posix']
+        for l in ((2, 3, 4, 5, 6) if T else (2, 3, 4)):
+            J.append(Job('C18', 'split%d' % l, 'C18_request.cpp', defs={'H_SPLIT': None, 'L': l}, unwind=l + 3, shape='K', models=M,
+                         solver='cadical', timeout=1500 if T else 250,
+                         bounds='all command lines of exactly %d characters over {a,b,blank,\",\'}' % l))
+        for l in ((3, 4, 5, 6) if T else (3, 4)):
+            J.append(Job('C18', 'http%d' % l, 'C18_request.cpp', defs={'H_HTTP': None, 'L': l}, unwind=l + 18, shape='K', models=M,
+                         solver='cadical', timeout=1500 if T else 250,
+                         bounds='all URIs of exactly %d characters over {%%,2,5,4,1,e,/,.,a} with well-formed escapes' % l))
+    if prop == 'C07':
+        J += numtype_jobs('C07', 'C07_parse.cpp', T, {}, 'parse_', solver='cadical', timeout=900 if T else 250)
+    if prop == 'C12':
+        J += numtype_jobs('C12', 'C07_parse.cpp', T, {'H_ERRNO': None}, 'errno_', names=['UCH', 'SIN', 'FLT', 'ULG'], solver='cadical', timeout=900 if T else 250)
     return J
 
 COMMON_ASSUME = ['clang-14 -O1 lowering + ll2c translation (validated per run against the native build on witness and random tapes)',
@@ -35,6 +83,30 @@ BUS_NOTE = ('Trusted: clang-14 lowering, ll2c, models (string, sstream, posix, c
             '(every read result = timeout | error | chunk of 1..2 arbitrary bytes), clock = arbitrary non-decreasing instants, logging off. '
             'DirectProtocolHandler::run() itself (thread start, 5 s reopen wait) is not encoded; its loop body is re-stated in env_bus.h Stepper.')
 META = {
+ 'C07': dict(
+   level_text='Bounded model checking of the real NumberDataType::parseInput + checkValueRange per built-in numeric type: the libc parse result is a free 64-bit / double variable constrained only by the strtol/strtoul/strtod contract, so every text outcome (sign, any magnitude, overflow, trailing garbage, NaN/inf) is covered; success implies well-formed text, value in the representable and configured range, and a raw value that decodes to the request within one resolution step.',
+   level_note='Trusted: clang-14 lowering, ll2c, the libc contract stubs in C07_parse.cpp (symbolic) vs real glibc on the generated text (native replay), models/libm.c (exp2/round), CBMC float encoding. The registry constructor is not executed (types are constructed from the transcribed table). Outside: value lists (ValueListDataField), BCD/HCD digit types, date/time types, EXP float type, derived min/max/step via derive().',
+   outside_claim='value-list fields, BCD/HCD and date/time types, EXP/EXR, derive()d ranges, the text->libc step itself (glibc trusted)',
+   assumptions=COMMON_ASSUME + ['a conforming libc: strtol/strtoul/strtod return the mathematical value of the text or saturate with ERANGE'],
+ ),
+ 'C12': dict(
+   level_text='Bounded model checking of one purity clause on the real code: the result of NumberDataType::parseInput for any input is the same whether errno was 0 or ERANGE before the call (i.e. after an arbitrary earlier operation in the thread), per numeric type, for every libc outcome.',
+   level_note='Only the call-history (errno) clause of the numeric encode path is decided. Outside: output-stream formatting state between fields, load-order independence of definitions, date/string types.',
+   outside_claim='stream formatting state carried between fields, derive() order independence, definition load order, non-numeric types',
+   assumptions=COMMON_ASSUME,
+ ),
+ 'C18': dict(
+   level_text='Bounded model checking of the real RequestImpl::split and RequestImpl::add: for every command line / URI of the stated lengths over the stated alphabets the result equals a reference tokenizer / single-pass percent decoder written from the statement.',
+   level_note='Trusted: clang-14 lowering, ll2c, models/string.c, sstream.c (istringstream/getline), libc.c (mini sscanf: any directive other than %1x in the format is reported). Outside: executeGet path containment under the HTML root, MQTT topic template matching (StringReplacer), unterminated quotes, malformed escapes.',
+   outside_claim='HTML-root containment in MainLoop::executeGet, MQTT topic round trip, lines/URIs longer than the bound, unterminated quotes, malformed percent escapes',
+   assumptions=COMMON_ASSUME,
+ ),
+ 'C15': dict(
+   level_text='Bounded model checking of the real answer registration and lookup (setAnswer/getAnswer/createAnswerKey on a real DirectProtocolHandler): for every pair of registrations and every received telegram within the bounds the lookup result equals an independent longest-matching-prefix reference; shift counts and indices are checked for every NN.',
+   level_note=BUS_NOTE + ' Only the lookup kernel is encoded; the on-wire ACK/response exchange (bs_sendCmdAck...) is outside this check.',
+   outside_claim='the on-wire answer exchange (ACK, response bytes, NAK repetition), more than 2 registrations, NN above the bound, CLI parsing of --answer',
+   assumptions=COMMON_ASSUME,
+ ),
  'C01': dict(
    claimed=False, na_reason='harnesses C01_passive.cpp / C01_step.cpp exist but no bound profile finishes under the cap yet (CBMC symex on the translated handler: K=1 57 s, K=2 no verdict in 400 s); not claimed until a profile passes',
    level_text='Bounded model checking of the real DirectProtocolHandler + PlainDevice: K handler steps from the real initial state, every byte, chunking, timeout and read error chosen by the solver; after every step the reported messages are compared with an independent incremental eBUS telegram recogniser. Holds for all streams within the step bound.',
